@@ -17,7 +17,7 @@ for r in rounds:
     rr=[x for x in rows if rnd(x['k'])==r]
     out.append("| %d | %d | %d | %d |"%(r,len(rr),sum(1 for x in rr if x['first']),sum(1 for x in rr if x['now'])))
 out.append("")
-out.append("Every miss was an alphabet or driver gap - or, twice, a bug of the harness itself - never a wrong oracle; each was\nclosed by widening a harness or adding one (listed per change below), with zero alarms on the unmodified tree\nafterwards. The two changes that are not caught, C05-m4 and C12-m15, only manifest on a type that declares an attribute and a\nrelationship of the same name; JSON:API gives the fields of a resource one namespace, so such a type is outside the\ndomain, and on it the unmodified library itself returns the attribute's value for the relationship - it is recorded as\nnot detected by design.\n")
+out.append("Almost every miss was an alphabet or driver gap; a few were bugs of a harness (set-up code that called the operation under\ntest, a read that perturbed the object, an expectation computed from a copy that shared the corruption) or an oracle that\nleaned on the library itself (C05 used HasType / GetType to decide conformance, C04 skipped a relationship that was not an\nobject, a recorded finding's signature was broad enough to swallow another defect); none was an oracle demanding the wrong\nthing. Each was\nclosed by widening a harness or adding one (listed per change below), with zero alarms on the unmodified tree\nafterwards. The two changes that are not caught, C05-m4 and C12-m15, only manifest on a type that declares an attribute and a\nrelationship of the same name; JSON:API gives the fields of a resource one namespace, so such a type is outside the\ndomain, and on it the unmodified library itself returns the attribute's value for the relationship - it is recorded as\nnot detected by design.\n")
 out.append("Four early changes no longer break their property on the current tree (their demonstrations now pass with the change\napplied): C01-m4, C12-m2 and C15-m3 relied on schema types keeping nil maps, a state the repair f7750ef (section 5.1) removed;\nC20-m5 relied on Set(id) going through setField, which the repair f072ded removed. They are kept with the result of the last run against the tree on which they were valid\nregressions and marked (*) below.\n")
 out.append("| Change | Caught at first | Caught now | Signature(s) reported now | What it needs to manifest | Strengthening that closed a miss |")
 out.append("|---|---|---|---|---|---|")
